@@ -3,11 +3,13 @@
    First half (Db/Mvcc.v): for ALL interleavings of reader steps with writer commits.  Queries,
    states and writer transactions are arbitrary (Section variables made explicit here).
    Second half (Db/Access.v + Gen/GenAccess.v): a finite-domain proof over the table that
-   translators/access regenerates from the Go source on every run.  Data races as such are a notion
+   translators/access regenerates from the Go source on every run - the obligation about the
+   generated table itself is in Properties/C18Table.v, so that a source change which breaks it
+   leaves the theorems of this file checked.  Data races as such are a notion
    of the Go memory model; what is proved is the absence of conflicting unsynchronised accesses in
    that table - the race detector run of the harness is the schedule search (design/C18.md). *)
 From Coq Require Import List String Bool Arith.
-From Storage Require Import Db.Mvcc Db.MvccProofs Db.Access Db.AccessProofs Gen.GenAccess Db.AccessInst.
+From Storage Require Import Db.Mvcc Db.MvccProofs Db.Access Db.AccessProofs.
 Import ListNotations.
 
 (* Every read transaction observes exactly one committed state: each answer is the evaluation of
@@ -50,19 +52,3 @@ Theorem no_conflict_means_reads_only : forall t, no_conflict t = true ->
     a_kind a = ARead /\ a_kind b = ARead.
 Proof. exact no_conflict_sound. Qed.
 Print Assumptions no_conflict_means_reads_only.
-
-(* Finite domain: the generated table of the current source.  Any two invocations of the listed
-   helpers (also two of the same helper) touch a common package-level variable without
-   synchronisation only by reading it. *)
-Theorem helpers_no_conflicting_access :
-  forall h1 h2, In h1 table -> In h2 table ->
-  forall a b, In a (h_acc h1) -> In b (h_acc h2) ->
-    a_loc a = a_loc b -> a_sync a = false -> a_sync b = false ->
-    a_kind a = ARead /\ a_kind b = ARead.
-Proof. exact helpers_no_conflicting_access_lemma. Qed.
-Print Assumptions helpers_no_conflicting_access.
-
-(* the helpers the property names are rows of that table *)
-Theorem named_helpers_in_table : forallb (has_helper table) named_helpers = true.
-Proof. exact generated_table_names_helpers. Qed.
-Print Assumptions named_helpers_in_table.
